@@ -21,3 +21,10 @@ package membership
 //@ requires s != nil
 //@ ensures.fixed[C10] result == s.info
 //@ modifies nothing
+
+//@ func NewDynamicMembership
+//@ props C10 C15
+//@ requires bus != nil && logger.Log != nil
+//@ ensures.kind[C10,C15] typeis(result, "*dynamicMembership") && fresh(as(result, "*dynamicMembership")) && as(result, "*dynamicMembership").info == nil
+//@ ensures.subscribed[C10] calls(EventBus.Bus.SubscribeAsync) == 1 && arg(EventBus.Bus.SubscribeAsync, 0, topic) == helpers.MembershipChangedBusEventName && arg(EventBus.Bus.SubscribeAsync, 0, transactional) == true && isbound(ifaceval(arg(EventBus.Bus.SubscribeAsync, 0, fn)), "(*dynamicMembership).membershipChangedListener")
+//@ modifies calls(EventBus.Bus.SubscribeAsync)
